@@ -36,7 +36,11 @@ def contents(max_small=48, big=True):
         return small
     sized = st.builds(lambda p, n: {"pat": p, "n": n}, _pat(), st.sampled_from(boundary_sizes()))
     multi = st.builds(lambda p, n: {"pat": p, "n": n}, _pat(), st.integers(8193, 5 * 8192 + 1))
-    return st.one_of(small, sized, sized, multi)
+    # NUL bytes: an all-zero object, and data followed by a tail of zero blocks (padded archives, blank images) - what a
+    # "skip zero blocks / sparse file" optimisation gets wrong
+    zeros = st.builds(lambda head, z: {"zeros": z, "head": head}, st.sampled_from([0, 1, 5000, 8192, 2 * 8192 + 3]),
+                      st.sampled_from([1, 4096, 8192, 8193, 3 * 8192, 4 * 8192 + 1]))
+    return st.one_of(small, sized, sized, multi, small, sized, sized, multi, zeros)
 
 
 def size_class(n):
